@@ -89,6 +89,8 @@ class H(common.Harness):
         return c, d
 
     def crep(self, d):
+        if d.get("forced_ed") is not None:
+            return d["forced_ed"]
         cfg = d["cfg"]
         if cfg is None:
             return d["rep"]
@@ -106,7 +108,9 @@ class H(common.Harness):
             if a["placeholder"] or b["placeholder"]:
                 return z3.BoolVal(False)
             return z3.And(a["vol"] == b["vol"], a["page"] == b["page"], self.crep(a) == self.crep(b))
-        return None  # law / journal: only the equivalence laws and cross-kind inequality are claimed
+        if a["kind"] == "full_journal" and (a["placeholder"] or b["placeholder"]):
+            return z3.BoolVal(False)  # "citations with a placeholder page ... are equal only to themselves"
+        return None  # law / journal otherwise: only the equivalence laws and cross-kind inequality are claimed
 
     def run(self):
         eng = self.eng
@@ -119,16 +123,40 @@ class H(common.Harness):
             objs.append(c)
             ds.append(d)
         self.ds = ds
+        self.orig0 = dict(ds[0])
         it, M = self.interp, self.M
-        eqm, heq, req = {}, {}, {}
-        hashes = [it.hash_of(c) for c in objs]
-        res = [it.instantiate(M.Resource, (c,), {}) for c in objs]
-        for i in range(self.N):
-            for j in range(self.N):
-                eqm[(i, j)] = bool(it.truth(it.eq(objs[i], objs[j])))
-                heq[(i, j)] = bool(it.truth(it.eq(hashes[i], hashes[j]))) if not (isinstance(hashes[i], int) and isinstance(hashes[j], int)) else hashes[i] == hashes[j]
-                req[(i, j)] = bool(it.truth(it.eq(res[i], res[j])))
-        return eqm, heq, req
+
+        def observe():
+            eqm, heq, req = {}, {}, {}
+            hashes = [it.hash_of(c) for c in objs]
+            res = [it.instantiate(M.Resource, (c,), {}) for c in objs]
+            for i in range(self.N):
+                for j in range(self.N):
+                    eqm[(i, j)] = bool(it.truth(it.eq(objs[i], objs[j])))
+                    heq[(i, j)] = bool(it.truth(it.eq(hashes[i], hashes[j]))) if not (isinstance(hashes[i], int) and isinstance(hashes[j], int)) else hashes[i] == hashes[j]
+                    req[(i, j)] = bool(it.truth(it.eq(res[i], res[j])))
+            return eqm, heq, req
+
+        first = observe()
+        # history: a citation that has been compared/hashed is then corrected through its public attributes
+        # (page, or the guessed edition); equality must follow the new values
+        self.mutation = None
+        d0 = ds[0]
+        if d0["kind"] in ("full_case", "short_case") and not d0["placeholder"] and self.params.get("history", True):
+            which = eng.choose([z3.Int("mutation") == k for k in range(3)])
+            if which == 1:
+                newp = eng.fresh_int("newpage")
+                eng.add(newp >= 0)
+                objs[0].groups["page"] = NumStr(newp)
+                self.ds = ds = [dict(d0, page=newp)] + ds[1:]
+                self.mutation = "page"
+            elif which == 2:
+                newed = eng.fresh_int("newed")
+                objs[0].edition_guess = EdStub(Atom(newed), EdStub(Atom(eng.fresh_int("edrep"))))
+                self.ds = ds = [dict(d0, forced_ed=newed)] + ds[1:]
+                self.mutation = "edition_guess"
+        second = observe() if self.mutation else None
+        return first, second
 
     def witness(self, m):
         out = []
@@ -138,7 +166,12 @@ class H(common.Harness):
                 if d[k] is not None:
                     w[k] = mval(m, d[k])
             out.append(w)
-        return {"citations": out, "pool": [mval(m, x) for x in self.pool_ids]}
+        w = {"citations": out, "pool": [mval(m, x) for x in self.pool_ids], "mutation": getattr(self, "mutation", None)}
+        if w["mutation"] == "page":
+            w["orig_page"] = mval(m, self.orig0["page"])
+        if w["mutation"] == "edition_guess":
+            w["new_edition"] = mval(m, self.ds[0]["forced_ed"])
+        return w
 
     def describe(self, kind, out):
         m = self.eng.path_model()
@@ -148,9 +181,24 @@ class H(common.Harness):
         if kind == "exc":
             nm = "C16:context_not_read" if isinstance(out, ContextRead) else "C16:no_exception:" + type(out).__name__
             return [self.check(nm, False, self.witness)]
-        eqm, heq, req = out
+        first, second = out
         N = self.N
         fs = []
+        if second is not None:
+            # after the correction, the specification is evaluated on the new attribute values (self.ds)
+            eqm2 = second[0]
+            conds2 = []
+            for i in range(N):
+                for j in range(N):
+                    sp = self.spec_equal(self.ds[i], self.ds[j], i == j)
+                    if sp is not None:
+                        conds2.append(sp if eqm2[(i, j)] else z3.Not(sp))
+            cons2 = all(second[0][k] == second[1][k] == second[2][k] for k in second[0])
+            fs.append(self.check("C16:equality_follows_corrected_attributes", z3.And(z3.BoolVal(cons2), *conds2) if conds2 else z3.BoolVal(cons2), self.witness))
+            # the first observation was made on the original attribute values
+            self_ds_now = self.ds
+            self.ds = [dict(self.ds[0], page=self.orig0["page"], forced_ed=None)] + self.ds[1:]
+        eqm, heq, req = first
         laws = all(eqm[(i, i)] for i in range(N)) and all(eqm[(i, j)] == eqm[(j, i)] for i in range(N) for j in range(N))
         laws = laws and all((not (eqm[(i, j)] and eqm[(j, k)])) or eqm[(i, k)] for i in range(N) for j in range(N) for k in range(N))
         fs.append(self.check("C16:equivalence_relation", z3.BoolVal(laws), self.witness))
@@ -164,6 +212,8 @@ class H(common.Harness):
                     continue
                 conds.append(sp if eqm[(i, j)] else z3.Not(sp))
         fs.append(self.check("C16:equal_iff_same_volume_page_normalised_reporter", z3.And(*conds) if conds else z3.BoolVal(True), self.witness))
+        if second is not None:
+            self.ds = self_ds_now
         return fs
 
 
@@ -266,6 +316,42 @@ def build_concrete(w):
     return out
 
 
+def concrete_history(w):
+    """replay of a history model: observe, correct citation 0 through its public attributes, observe again."""
+    import eyecite.models as M
+
+    if not w.get("mutation"):
+        return []
+    w0 = dict(w, citations=[dict(w["citations"][0])] + w["citations"][1:])
+    if w["mutation"] == "page":
+        w0["citations"][0]["page"] = w["orig_page"]
+    cs = build_concrete(w0)
+    for a in cs:
+        for b in cs:
+            a == b, hash(a), M.Resource(a) == M.Resource(b)
+    if w["mutation"] == "page":
+        cs[0].groups["page"] = str(w["citations"][0]["page"])
+    else:
+        cs[0].edition_guess = M.Edition(M.Reporter("RepX", "name", "state", "reporters"), "R" + str(w["new_edition"]), None, None)
+    bad = []
+    for i, a in enumerate(cs):
+        for j, b in enumerate(cs):
+            da, db = w["citations"][i], w["citations"][j]
+            if da["kind"] not in ("full_case", "short_case") or db["kind"] != da["kind"]:
+                continue
+
+            def crep(c_, d_, k):
+                if k == 0 and w["mutation"] == "edition_guess":
+                    return "R" + str(w["new_edition"])
+                cands = c_.exact_editions or c_.variation_editions
+                return cands[0].short_name if len(cands) == 1 else c_.groups["reporter"]
+
+            want = i == j or (not da["placeholder"] and not db["placeholder"] and (da["vol"], da["page"]) == (db["vol"], db["page"]) and crep(a, da, i) == crep(b, db, j))
+            if (a == b) != want or (hash(a) == hash(b)) != want or (M.Resource(a) == M.Resource(b)) != want:
+                bad.append("C16:equality_follows_corrected_attributes")
+    return sorted(set(bad))
+
+
 def concrete_oracle(cs, w):
     import eyecite.models as M
 
@@ -295,6 +381,8 @@ def concrete_oracle(cs, w):
                 want = False
             elif a["kind"] in ("full_case", "short_case"):
                 want = not a["placeholder"] and not b["placeholder"] and (a["vol"], a["page"]) == (b["vol"], b["page"]) and crep(cs[i], a) == crep(cs[j], b)
+            elif a["kind"] == "full_journal" and (a["placeholder"] or b["placeholder"]):
+                want = False
             else:
                 continue
             if eqm[(i, j)] != want:
@@ -350,6 +438,16 @@ def check(rep):
             continue
         w = f["witness"]
         rep.replays += 1
+        if f["clause"] == "C16:equality_follows_corrected_attributes":
+            bad = concrete_history(w)
+            if bad:
+                if ("hist", w["mutation"]) not in seen:
+                    seen.add(("hist", w["mutation"]))
+                    rep.violation(f"citations {w['citations']}: after comparing them, citation 0's {w['mutation']} was corrected; ==/hash/Resource do not follow the new value", {"kind": "history", "witness": w})
+            else:
+                rep.spurious += 1
+                rep.inconc(f"history model did not reproduce: {w}")
+            continue
         cs = build_concrete(w)
         bad = concrete_oracle(cs, w)
         if f["clause"] == "C16:context_not_read" and not bad:
@@ -388,6 +486,30 @@ def check(rep):
         else:
             rep.spurious += 1
             rep.inconc(f"placeholder model did not reproduce: {f['witness']}")
+    # candidate editions survive token merging (the normalised reporter is computed from them)
+    aggm = common.explore_split("vf.harness.c15", {"part": "merge"}, depth=4)
+    rep.merge_explore("token_merge", aggm)
+    clm = "C16:merged_candidate_editions_are_the_union_of_both_tokens"
+    n_ok = aggm["verdicts"].get(clm + ":valid", 0)
+    n_ob = sum(v for k, v in aggm["verdicts"].items() if k.startswith(clm))
+    rep.oblige(n_ok)
+    rep.oblige(n_ob - n_ok, ok=False)
+    for f in aggm["findings"]:
+        if f["clause"] != clm:
+            continue
+        rep.replays += 1
+        import eyecite.models as M2
+        import eyecite.tokenizers as T2
+
+        us, other = T2.EDITIONS_LOOKUP["U.S."][0], T2.EDITIONS_LOOKUP["F.2d"][0]
+        a = M2.CitationToken("1 X 1", 0, 5, groups={"volume": "1", "reporter": "X", "page": "1"}, exact_editions=(us,))
+        b = M2.CitationToken("1 X 1", 0, 5, groups={"volume": "1", "reporter": "X", "page": "1"}, exact_editions=(other,), variation_editions=(us,))
+        a.merge(b)
+        if set(a.exact_editions) != {us, other} or set(a.variation_editions) != {us}:
+            rep.violation(f"CitationToken.merge loses candidate editions: exact {[e.short_name for e in a.exact_editions]}, variation {[e.short_name for e in a.variation_editions]} after merging (U.S.) with (F.2d | U.S.)", {"kind": "merge"})
+        else:
+            rep.inconc(f"merge model did not reproduce: {f['witness']}")
+        break
     db_normalisation(rep)
     return rep.finish(
         explanation=f"Path-exhaustive symbolic execution of the real __hash__/__eq__/corrected_reporter/guess_edition/Resource source on {N} citation objects with symbolic identity attributes and poisoned context; per path: equivalence laws, ==/hash/Resource agreement, and 'equal iff same class, volume, page and normalised reporter, no placeholder' as z3 validity queries.",
@@ -399,6 +521,10 @@ def replay_file(path):
     import json
 
     r = json.load(open(path))["replay"]
+    if r["kind"] == "history":
+        bad = concrete_history(r["witness"])
+        print(bad)
+        return 1 if bad else 0
     if r["kind"] == "post":
         bad = replay_post(r["witness"])
         print(bad)
